@@ -398,6 +398,50 @@ func bigNanos(t time.Time) *big.Int {
 }
 
 // time arithmetic folds to the exact instant, duration or truth value
+// c09Zones: a time string without a zone means the wall-clock time in the valuer's zone - in the zone of THIS fold,
+// whatever zones earlier folds of the same string ran under
+func c09Zones(o *out) {
+	zones := []*time.Location{time.UTC, time.FixedZone("m5", -5*3600), time.FixedZone("p9", 9*3600), nil, time.FixedZone("p530", 5*3600+1800), time.UTC, time.FixedZone("m5", -5*3600)}
+	strs := []struct{ s, layout string }{{"2019-03-07 12:34:56", "2006-01-02 15:04:05"}, {"2019-03-08", "2006-01-02"}, {"2000-01-01 00:00:00.5", "2006-01-02 15:04:05.999999999"}, {"1999-12-31 23:59:59", "2006-01-02 15:04:05"}}
+	for pass := 0; pass < 2; pass++ {
+		for _, z := range zones {
+			for _, st := range strs {
+				loc := z
+				if loc == nil {
+					loc = time.UTC
+				}
+				wall, err := time.ParseInLocation(st.layout, st.s, loc)
+				must(err)
+				for _, text := range []string{"'" + st.s + "' + 1h", "'" + st.s + "' - 90m", "time > '" + st.s + "' - 0s"} {
+					e, err := influxql.ParseExpr(text)
+					must(err)
+					var red influxql.Expr
+					pn := safely(func() { red = influxql.Reduce(e, &influxql.NowValuer{Now: time.Unix(0, 0), Location: z}) })
+					o.count("zone")
+					o.checked()
+					var got time.Time
+					ok := false
+					influxql.WalkFunc(red, func(n influxql.Node) {
+						if t, isT := n.(*influxql.TimeLiteral); isT {
+							got, ok = t.Val, true
+						}
+					})
+					want := wall.Add(time.Hour)
+					if strings.Contains(text, "90m") {
+						want = wall.Add(-90 * time.Minute)
+					} else if strings.Contains(text, "0s") {
+						want = wall
+					}
+					if pn != nil || !ok || !got.Equal(want) {
+						o.fail("", fmt.Sprintf("Reduce(%s) in zone %v gives %v (%v), the wall-clock reading in that zone is %s", text, z, red, pn, want.UTC().Format(time.RFC3339Nano)),
+							map[string]interface{}{"op": "reduce_zone", "text": text})
+					}
+				}
+			}
+		}
+	}
+}
+
 func c09Time(o *out, r *rng, n int) {
 	now := time.Unix(1700000000, 123456789).UTC()
 	times := []string{now.Format(time.RFC3339Nano), "2000-01-01T00:00:00Z", "2000-01-01 00:00:00", "2000-01-01", "2000-01-01T00:00:00+02:00", "2000-06-01T12:30:00.5-07:00", "1999-12-31T23:00:00-01:00", "1970-01-01T00:00:00.000000001Z", "2262-04-11T23:47:16.854775807Z", "1677-09-21T00:12:43.145224192Z", "2020-02-29 12:34:56.789", "9999-12-31T23:59:59Z"}
@@ -590,6 +634,7 @@ func propC09(o *out, r *rng, thorough bool) {
 		}
 	}
 	c09Time(o, r, n)
+	c09Zones(o)
 	_ = strings.ToLower
 }
 
